@@ -167,6 +167,9 @@ Proof.
 Qed.
 Definition tqdim (a : tq) : uvec := match a with TConst => uzero | TQ q => qdim q end.
 
+(* unary operations that rebuild self.__class__(value) *)
+Inductive unop := U_abs | U_conjugate | U_sign | U_simplify | U_expand | U_copy | U_subs | U_limit | U_diff | U_integ.
+
 (* outcome of ExprDomain.as_quantity(name): builds the class of a quantity, returns self, or raises *)
 Inductive asres := AsQ (q : quantity) | AsSelf (* dispatches to as_expr() *) | AsError.
 
@@ -198,6 +201,10 @@ Record tables := {
   ft_keeps_units : bool;
   (* does Expr.magnitude of a real-valued expression rebuild self.__class__ (instead of expr(abs(...))) *)
   mag_real_keeps : bool;
+  (* does the operation give its result the units of self (ret.units = self.units ...) instead of the class default *)
+  keeps : unop -> bool;
+  (* does convolve() take the class of x when self is a transfer function / generic expression *)
+  conv_by_operand : bool;
   asq : quantity -> asres;                       (* ExprDomain.as_quantity dispatch *)
   as_expr_cls : domain -> quantity -> option (domain * quantity);   (* class built by as_expr(), None = self *)
   sites : list (domain * domain * uvec);         (* change(..., units_scale=...) call sites *)
